@@ -735,6 +735,10 @@ impl PrunePlan {
         p.finish();
 
         let mut pruner = Self::new(used_ids, existing_packs, index_files);
+        #[cfg(feature = "verif")]
+        {
+            pruner.time = crate::verif::clock::adjust_zoned(&pruner.time);
+        }
         pruner.count_used_blobs();
         pruner.check()?;
         let repack_cacheable_only = opts
